@@ -103,6 +103,7 @@ def to_tree(node, cids, fids, counter, idmap):
     if cname not in cids:
         raise Unsupported(cname)
     idmap[id(node)] = nid
+    idmap.setdefault('_keep', []).append(node)     # keep the object alive: CPython reuses ids of freed objects
     t = {'id': nid, 'cls': cids[cname], 'name': cname, 'ch': []}
     if cname in SCHEMA:
         for f, tb, tg, c in children(node, cname):
